@@ -1123,7 +1123,21 @@ async fn middleware_sequence(w: &World) {
     ev!("middleware: {} responses, begin attached {}, end attached {}", n, svc.begin_attached, svc.end_attached);
     let mut stream = Box::pin(mw.call(request).await);
     let mut got = 0usize;
-    while let Some(item) = stream.next().await {
+    // A long transfer: minutes may pass between two responses (more than the
+    // fudge in total). Every response is signed when it is produced and
+    // verified when it arrives, so each of them is fresh.
+    let slow = sim::chance("mw.minutes_between_responses", 1, 4);
+    if slow {
+        sim::stat("probe.middleware_responses_minutes_apart");
+    }
+    loop {
+        if slow {
+            sim::sleep_ms(*sim::pick("mw.gap_s", &[0u64, 100, 250, 400, 4000]) * 1000).await;
+        }
+        let item = match stream.next().await {
+            Some(i) => i,
+            None => break,
+        };
         let cr = match item {
             Ok(cr) => cr,
             Err(e) => {
